@@ -205,6 +205,19 @@ def is_harness_check(c):
     return "src/verif_kani/" in check_loc(c) or (c.get("function") or "").startswith("verif_kani::")
 
 
+def own_panic(c):
+    """a panic/assert raised by the crate itself (any function under src/, whatever its name),
+    or by core's panic helpers on its behalf - as opposed to a harness assertion or a
+    memory-safety check"""
+    loc = check_loc(c)
+    fn = c.get("function") or ""
+    if is_harness_check(c) or MEMSAFE_PAT.search(c.get("description") or ""):
+        return False
+    if loc.startswith("src/") and (c.get("category") in ("assertion", "bounds_check", None) or True):
+        return True
+    return bool(re.search(r"core::option::expect_failed|core::panicking|core::result::unwrap_failed|core::slice::index", fn))
+
+
 def classify_harness(unit_expect, r):
     """Returns (verdict, detail).  verdict in {'pass','violation','undecided','broken'}."""
     if r["status"] == "Undecided":
@@ -246,7 +259,7 @@ def classify_harness(unit_expect, r):
                 continue
             desc = c.get("description") or ""
             s = desc + " || " + (c.get("function") or "") + " @ " + check_loc(c)
-            if is_harness_check(c) or MEMSAFE_PAT.search(desc) or not any(p.search(s) for p in pats):
+            if is_harness_check(c) or MEMSAFE_PAT.search(desc) or not (own_panic(c) or any(p.search(s) for p in pats)):
                 bad.append(c)
         if bad:
             return "violation", bad
@@ -271,7 +284,7 @@ def classify_harness(unit_expect, r):
                 # a harness assertion (the call returned / state changed) or a memory-safety
                 # check (a write outside the container) - never an acceptable way to fail
                 bad.append(c)
-            elif any(p.search(s) for p in pats):
+            elif own_panic(c) or any(p.search(s) for p in pats):
                 expected_hit = True
             else:
                 bad.append(c)
